@@ -25,7 +25,7 @@ ASSUMPTIONS = ['exact oracle vpbt/oracle_geom.py', 'polygons valid, holes opposi
 SCOPE = {'quick': {'lattice': 3, 'hole_catalogue': True}, 'thorough': {'lattice': 4, 'hole_catalogue': True}}
 EXHAUSTIVE = {'quick': True, 'thorough': True}
 BUDGET = {'quick': {'shards': 16, 'examples': 1600, 'min_evaluations': 50000},
-          'thorough': {'shards': 16, 'examples': 32000, 'min_evaluations': 500000}}
+          'thorough': {'shards': 16, 'examples': 16000, 'min_evaluations': 500000}}
 
 
 def grid_points(g):
